@@ -3,6 +3,18 @@ import json, os
 VERIF = os.path.dirname(os.path.dirname(os.path.abspath(__file__)))
 PROOF = "proof"
 CHECKS = {
+ "C19": dict(
+    text="Lean 4 theorems: the index interleaving of the TT-matrix constructor is undone by torch() for every factorisation into any number "
+         "of factors; the Kronecker routines accept exactly all-ranks-1, square-block matrices (the repaired inverted test) and reject "
+         "rank>1 / non-square input; for Kronecker products (Mathlib ⊗ₖ) the determinant formula det A^n·det B^m used by the code "
+         "(2 and 3 blocks), the block-wise inverse and the block-wise Cholesky-type factor reproduce the dense results. The decision "
+         "logic and the index maps are compared with /repo on generated inputs; decompression, tt_multiply/cp_multiply, trace, "
+         "determinant/slogdet/inv/cholesky values (batch and non-batch) by NumPy/torch.linalg oracles.",
+    note="Trusted: Lean kernel + standard axioms; torch.linalg.det/inv/cholesky per block (kernels); harness glue; sampling. Uniqueness "
+         "of the Cholesky factor (lower-triangular, positive diagonal) is not proved (absent from Mathlib): cholesky_two_blocks shows "
+         "L·Lᵀ = A⊗B. tt_multiply/cp_multiply/trace have no Lean theorem (oracle only); d>3 blocks follow the same induction (not stated).",
+    tech="Lean 4 proof (index arithmetic; Mathlib's Kronecker determinant/inverse lemmas) + differential correspondence + linalg oracles",
+    ref="§3 C19"),
  "C17": dict(
     text="Lean 4 theorems (any field, any matrix sizes): one swap of the maxvol loop preserves C·A[idx] = A whenever the pivot is non-zero, "
          "and the whole fuel-bounded loop does (the guard tol<|C[i,j]| with tol≥0 gives the non-zero pivot). The model's swap loop "
